@@ -130,6 +130,7 @@ func runCase(c ringlab.ChurnCfg, rep *batch.Report) batch.CaseResult {
 	}
 	if res.JoinsOK+res.LeavesDone > 0 && st.OpsChecked > 0 {
 		out.Sig = res.EventSig
+		out.Sigs = append(out.Sigs, "overlaps:"+res.OverlapSig)
 	}
 	out.Sample = map[string]any{"cfg": c, "ops": len(res.Ops), "partitions": st.Partitions, "retryable_removed": st.RetryableOps, "joins_ok": res.JoinsOK, "leaves_done": res.LeavesDone, "first_ops": firstOps(res.Ops, 6)}
 	return out
@@ -151,7 +152,7 @@ func main() {
 	child.Register("directed", runDirected)
 	child.Main()
 	r := ev.Start("C04", "exploration")
-	r.SetRule("executions of real rings with 3-6 multi-writer clients over 2-4 keys issuing all seven KV operations (unique put values) through random entry nodes while 1-3 goroutines join and leave nodes, seeded delays at the chord hook points (around key transfer, state changes and between lookup and lock); after quiescence every key is read from every live node (appended to the history); distinct+non-trivial = hash of the interleaving of membership hook events across nodes, for executions with a completed join/leave and a non-empty checked history; plus directed hook-ordered schedules: after a leave the first Notify reaching the successor is held between its ping and its apply while a second Notify repairs the pointer and a node joins in between, then released (the predecessor pointer must not move back; a write through the successor for a key of the joiner must be visible through its neighbours)")
+	r.SetRule("executions of real rings with 3-6 multi-writer clients over 2-4 keys issuing all seven KV operations (unique put values) through random entry nodes while 1-3 goroutines join and leave nodes, seeded delays at the chord hook points (around key transfer, state changes and between lookup and lock); after quiescence every key is read from every live node (appended to the history); distinct+non-trivial = hash of the interleaving of membership hook events across nodes, and separately the set of kinds of membership operations whose windows overlapped ({join,leave} x {join,leave} x ring distance adjacent / one node between / farther, with or without a failed attempt), for executions with a completed join/leave and a non-empty checked history; plus directed hook-ordered schedules: after a leave the first Notify reaching the successor is held between its ping and its apply while a second Notify repairs the pointer and a node joins in between, then released (the predecessor pointer must not move back; a write through the successor for a key of the joiner must be visible through its neighbours)")
 	r.Assume("operations that ended with a retryable error are removed from the history: if one took effect, a later read observes a value no remaining write produced and porcupine rejects the history")
 	r.Assume("ErrKVSimpleConflict on Put/Delete is a failed CAS without effect; ErrKVPrefixConflict is the duplicate-child outcome of PrefixAppend")
 	rng := r.Rand("cases")
